@@ -450,6 +450,7 @@ pub fn run_check(property: &'static str, fams: &[&dyn Family], tier: Tier, verif
     let mut violations: Vec<(String, String, String, Value)> = Vec::new();
     let mut known_hits: BTreeMap<String, (String, u64)> = BTreeMap::new();
     let mut exhaustive = true;
+    let mut machinery_failures = 0u64;
     let mut level = "exploration";
     let mut rules = Vec::new();
     // families run concurrently (each with its own worker processes)
@@ -492,6 +493,14 @@ pub fn run_check(property: &'static str, fams: &[&dyn Family], tier: Tier, verif
             let case_desc = fam.cases(tier).nth(*idx).map(|c| c.to_string()).unwrap_or_default();
             let f = json!({"property": property, "class": "worker-died", "site": format!("{};case={}", fam.name(), case_desc), "detail": how,
                 "replay": {"family": fam.name(), "index": idx, "tier": tier.name()}});
+            let recorded_elsewhere = fam.crash_properties().iter().any(|p| match_known(&known, p, "worker-died", f["site"].as_str().unwrap_or("")).is_some());
+            if !fam.crash_properties().contains(&property) && !recorded_elsewhere {
+                // not a verdict for this property: either the compiler died (reported by the C04 check) or the
+                // harness did; in both cases this run did not explore the case, so it must not pass quietly
+                eprintln!("machinery: worker died in family {} on case {} ({}) - not explored", fam.name(), case_desc, how);
+                machinery_failures += 1;
+                exhaustive = false;
+            }
             if fam.crash_properties().contains(&property) {
                 let site = f["site"].as_str().unwrap().to_string();
                 if let Some(k) = match_known(&known, property, "worker-died", &site) {
@@ -599,7 +608,14 @@ pub fn run_check(property: &'static str, fams: &[&dyn Family], tier: Tier, verif
         exhaustive,
         wall
     );
-    if groups.is_empty() { 0 } else { 1 }
+    if !groups.is_empty() {
+        1
+    } else if machinery_failures > 0 {
+        eprintln!("machinery: {} cases were not explored because a worker died; no verdict", machinery_failures);
+        2
+    } else {
+        0
+    }
 }
 
 pub fn _unused(_: HashMap<u8, u8>) {}
